@@ -281,64 +281,21 @@ def _canon(e: ast.AST):
 
 
 def _table_element(ctx, table: str):
-    """(element expr in terms of alpha/beta names, (alpha, beta), offset) for the CompositeSystem table `table`."""
-    from ..astutil import clone
-    f = ctx.ix.func("quara.objects.composite_system.CompositeSystem._calc_basis_basisconjugate_sparse")
-    lst = None
-    for n in own_nodes(f.node):
-        if isinstance(n, ast.Assign) and unparse(n.targets[0]) == "self._" + table:
-            v = n.value
-            if not (isinstance(v, ast.Attribute) and v.attr == "T" and isinstance(v.value, ast.Name)):
-                return None, "self._%s is not <stacked rows>.T" % table
-            lst = v.value.id
-    if lst is None:
+    """(element expr in terms of alpha/beta names, (alpha, beta), offset) for the CompositeSystem table `table`; the layout is
+    read off the builder by qsa.tables (shared with C02 R4)."""
+    from ..tables import analyse_builders, Table
+    t = analyse_builders(ctx).get("_" + table)
+    if t is None:
         return None, "no store to self._%s" % table
-    # the stacked name is re-bound from the list of the same name: X = sparse.vstack(X).reshape(rows, size)
-    ok_stack = any(isinstance(n, ast.Assign) and unparse(n.targets[0]) == lst and isinstance(n.value, ast.Call)
-                   and unparse(n.value).startswith("sparse.vstack(%s).reshape(" % lst) for n in own_nodes(f.node))
-    if not ok_stack:
-        return None, "%s is not sparse.vstack(%s).reshape(...)" % (lst, lst)
-    loops = [n for n in own_nodes(f.node) if isinstance(n, ast.For) and isinstance(n.iter, ast.Call)
-             and (dotted(n.iter.func) or "").endswith("product") and len(n.iter.args) == 2 and isinstance(n.target, ast.Tuple)
-             and len(n.target.elts) == 2 and all(isinstance(x, ast.Name) for x in n.target.elts)]
-    if len(loops) != 1 or unparse(loops[0].iter.args[0]) != unparse(loops[0].iter.args[1]) or not unparse(loops[0].iter.args[0]).startswith("range("):
+    if not isinstance(t, Table):
+        return None, t
+    if not t.transposed or t.conj:
+        return None, "self._%s is not <stacked rows>.T" % table
+    if len(t.rows) != 2:
         return None, "table is not filled by one `for a, b in itertools.product(range(n), range(n))` loop"
-    loop = loops[0]
-    a, b = loop.target.elts[0].id, loop.target.elts[1].id
-    defs = {}
-    app = None
-    guard = None
-    for st in ast.walk(loop):
-        if isinstance(st, ast.Assign) and len(st.targets) == 1 and isinstance(st.targets[0], ast.Name):
-            defs.setdefault(st.targets[0].id, st.value)
-        if isinstance(st, ast.Call) and isinstance(st.func, ast.Attribute) and st.func.attr == "append" and unparse(st.func.value) == lst:
-            app = st
-    if app is None:
-        return None, "no %s.append(...) in the loop" % lst
-    from ..index import parents
-    for p in parents(app):
-        if p is loop:
-            break
-        if isinstance(p, ast.If):
-            from ..astutil import conjuncts
-            c_ = conjuncts(p.test, any(app is x for s_ in p.body for x in ast.walk(s_)))
-            atoms = {(t_, pol_) for t_, pol_, _ in c_} if c_ is not None else None
-            guard = True if atoms == {("%s == 0" % a, False), ("%s == 0" % b, False)} else unparse(p.test)
-    off = 0
-    if guard is not None:
-        if guard is True:
-            off = 1
-        else:
-            return None, "append is guarded by `%s`" % guard
-    e = clone(app.args[0])
-    for _ in range(4):
-        e = _Subst({k: clone(v) for k, v in defs.items()}).visit(e)
-    # strip the row reshape
-    if isinstance(e, ast.Call) and isinstance(e.func, ast.Attribute) and e.func.attr == "reshape" and len(e.args) == 2 and is_num(e.args[0], 1):
-        e = e.func.value
-    else:
-        return None, "appended element is not <matrix>.reshape(1, size)"
-    return (e, (a, b), off), None
+    if t.elem_order != "C":
+        return None, "appended element is flattened in %s order" % t.elem_order
+    return (t.elem, tuple(t.rows), t.offset), None
 
 
 def _q4(ctx, rep):
